@@ -300,24 +300,31 @@ CALLS = ["f a b", "x=7 y=ab f", "f; echo st=$?"]
 
 # ------------------------------------------------------------------------------------------------ classes of known findings
 
-def classify(feat, verdict):
-    """known-finding id for a failing program, by its generator features (decidable from the input);
-    rarer classes first so that each open finding is seen reproducing"""
-    if "nested_subshell" in feat:
-        return "KF-C14-nested-subshell-arith"
-    if "procsub_arg" in feat:
-        return "KF-C14-procsub-double-paren"
-    if "for_no_in" in feat:
-        return "KF-C14-for-without-in"
-    if "pipe_amp_redir" in feat:
-        return "KF-C14-pipe-amp-glue"
-    if "heredoc" in feat:
-        return "KF-C14-heredoc-indent"
-    if "multiline_word" in feat:
-        return "KF-C14-multiline-word-indent"
-    if "risky_redirs" in feat:
-        return "KF-C14-redirect-list-glue"
+CLASSES = [("nested_subshell", "KF-C14-nested-subshell-arith"), ("procsub_arg", "KF-C14-procsub-double-paren"),
+           ("for_no_in", "KF-C14-for-without-in"), ("pipe_amp_redir", "KF-C14-pipe-amp-glue"),
+           ("heredoc", "KF-C14-heredoc-indent"), ("multiline_word", "KF-C14-multiline-word-indent"),
+           ("risky_redirs", "KF-C14-redirect-list-glue")]
+_OPEN = None
+
+
+def open_ids():
+    global _OPEN
+    if _OPEN is None:
+        _OPEN = {f["id"] for f in core.load_known(PID) if f.get("status") == "open"}
+    return _OPEN
+
+
+def pick(classes):
+    """an OPEN class whenever one applies; a case lying only in fixed classes is a genuine violation (None)"""
+    for k in classes:
+        if k in open_ids():
+            return k
     return None
+
+
+def classify(feat, verdict):
+    """known-finding id for a failing program, by its generator features (decidable from the input)"""
+    return pick([kid for f, kid in CLASSES if f in feat])
 
 
 def first_diff(a, b):
@@ -330,33 +337,61 @@ def first_diff(a, b):
 
 def norm(s):
     """error messages carry the line number of the definition's text: not part of the behaviour; pipeline stages
-    that share a redirected stderr/stdout append to one file concurrently: lines are compared as a multiset"""
+    that share a redirected stderr/stdout append to one file concurrently: the lines of stdout and of each file are
+    compared as multisets.  Format: <status>|<stdout>|in=<content>;<name>=<content>;..."""
     s = re.sub(r"line \d+:", "line N:", s)
-    head, sep, files = s.partition("|in=")
-    parts = (head + sep + files).split(";")
-    return ";".join("\n".join(sorted(p.split("\n"))) for p in parts)
+    if "|" not in s or "|in=" not in s:
+        return s
+    status, rest = s.split("|", 1)
+    stdout, files = rest.rsplit("|in=", 1)
+
+    def srt(x):
+        return "\n".join(sorted(x.split("\n")))
+    out = [status, srt(stdout)]
+    for part in ("in=" + files).split(";"):
+        name, eq, content = part.partition("=")
+        out.append(name + eq + srt(content))
+    return "|".join(out[:2]) + "|" + ";".join(out[2:])
+
+
+def run_group(cmd, env, cwd, timeout):
+    """run a child in its own process group; the whole group is killed on timeout and after completion"""
+    import signal
+    p = subprocess.Popen(cmd, env=env, cwd=cwd, stdout=subprocess.PIPE, stderr=subprocess.PIPE, stdin=subprocess.DEVNULL,
+                         start_new_session=True)
+    try:
+        out, err = p.communicate(timeout=timeout)
+        rc = p.returncode
+    except subprocess.TimeoutExpired:
+        out, err, rc = b"", b"", None
+    finally:
+        try:
+            os.killpg(p.pid, signal.SIGKILL)
+        except (ProcessLookupError, PermissionError):
+            pass
+        if rc is None:
+            try:
+                p.communicate(timeout=5)
+            except Exception:
+                pass
+    return rc, out, err
 
 
 def bash_syntax_ok(src):
-    try:
-        p = subprocess.run(["/usr/bin/bash", "--norc", "--noprofile", "-n", "-c", src], env={"PATH": "/usr/bin:/bin"},
-                           stdout=subprocess.PIPE, stderr=subprocess.PIPE, timeout=10, stdin=subprocess.DEVNULL)
-        return p.returncode == 0
-    except subprocess.TimeoutExpired:
-        return False
+    rc, _, _ = run_group(["/usr/bin/bash", "--norc", "--noprofile", "-n", "-c", src], {"PATH": "/usr/bin:/bin"}, None, 10)
+    return rc == 0
 
 
 def bash_behaviour(src, call, cwd_root, k):
     wd = os.path.join(cwd_root, "w%d" % k)
     os.makedirs(wd, exist_ok=True)
     open(os.path.join(wd, "in"), "w").write("line1\nline2\n")
-    try:
-        p = subprocess.run(["/usr/bin/bash", "--norc", "--noprofile", "-c", src + "\n" + call], cwd=wd, env={"PATH": "/usr/bin:/bin"},
-                           stdout=subprocess.PIPE, stderr=subprocess.PIPE, timeout=10, stdin=subprocess.DEVNULL)
-        res = "%d|%s|" % (p.returncode, p.stdout.decode("utf-8", "replace"))
-        syntax = b"syntax error" in p.stderr
-    except subprocess.TimeoutExpired:
+    rc, out, err = run_group(["/usr/bin/bash", "--norc", "--noprofile", "-c", src + "\n" + call], {"PATH": "/usr/bin:/bin"}, wd, 10)
+    if rc is None:
         res, syntax = "timeout", False
+    else:
+        res = "%d|%s|" % (rc, out.decode("utf-8", "replace"))
+        syntax = b"syntax error" in err
     files = []
     for n in sorted(os.listdir(wd)):
         try:
@@ -517,8 +552,8 @@ def run(ctx, extended=False):
             sep_fail += 1
             # the class Known of Properties/C14.v, decided by the model itself (ok_cmd = false); the python
             # features only choose which finding id it is reported under
-            kf = None if model_ok else ("KF-C14-pipe-amp-glue" if "pipe_amp_redir" in feat and "risky_redirs" not in feat
-                                        else "KF-C14-redirect-list-glue")
+            kf = None if model_ok else pick(["KF-C14-pipe-amp-glue" if "pipe_amp_redir" in feat and "risky_redirs" not in feat
+                                             else "KF-C14-redirect-list-glue"])
             if kf and sum(1 for x in specv if x.get("known") == kf) > 40:
                 continue
             specv.append({"input": {"source": s, "features": sorted(feat)}, "printed": want,
